@@ -837,8 +837,12 @@ where
     pub fn compute_loops(&self, head: usize) -> Result<Vec<Loop>, Error> {
         let mut loops: BTreeMap<usize, BTreeSet<usize>> = BTreeMap::new();
 
+        let back_edges = self.compute_back_edges(head)?;
+        // Vertices unreachable from head are not part of any loop.
+        let reachable = self.reachable_vertices(head)?;
+
         // For each back edge compute the set of nodes part of the loop
-        for (tail, header) in self.compute_back_edges(head)? {
+        for (tail, header) in back_edges {
             let nodes = loops.entry(header).or_default();
             let mut queue: Vec<usize> = Vec::new();
 
@@ -850,7 +854,7 @@ where
 
             while let Some(node) = queue.pop() {
                 for &predecessor in &self.predecessors[&node] {
-                    if nodes.insert(predecessor) {
+                    if reachable.contains(&predecessor) && nodes.insert(predecessor) {
                         queue.push(predecessor);
                     }
                 }
